@@ -750,9 +750,30 @@ def run_real(case):
     top = build_real(case["tree"])
     keep, snaps, outs, muts = [], [], [], []
     mode = case.get("mode", "swap")
+    c11 = []
+
+    def probe_c11():
+        """widgets whose rows() disagrees with their own canvas, no cache involved (diagnosis runs only)"""
+        saved = (CanvasCache._widgets, CanvasCache._refs, CanvasCache._deps)
+        for w in walk(top):
+            if "flow" not in w.sizing():
+                continue
+            for mc in SIZES:
+                for fo in (False, True):
+                    try:
+                        CanvasCache.clear()
+                        r = w.rows((mc,), fo)
+                        CanvasCache.clear()
+                        if r != w.render((mc,), fo).rows():
+                            c11.append(type(w).__name__)
+                    except Exception:       # noqa: BLE001
+                        pass
+        CanvasCache._widgets, CanvasCache._refs, CanvasCache._deps = saved
     try:
         for op in case["ops"]:
             o = {"op": op[0]}
+            if op[0] in ("render", "rsub") and case.get("probe_c11"):
+                probe_c11()
             if op[0] in ("render", "rsub"):
                 size = (SIZES[op[1] % len(SIZES)],)
                 focus = bool(op[2])
@@ -823,23 +844,7 @@ def run_real(case):
                 CanvasCache.clear()
             outs.append(o)
         frozen = [i for i, (c, d) in enumerate(snaps) if content_of(c) != d]
-        c11 = []
-        if case.get("probe_c11"):
-            # widgets whose rows() disagrees with their own canvas, no cache involved
-            for w in walk(top):
-                if "flow" not in w.sizing():
-                    continue
-                for mc in SIZES:
-                    for fo in (False, True):
-                        try:
-                            CanvasCache.clear()
-                            r = w.rows((mc,), fo)
-                            CanvasCache.clear()
-                            if r != w.render((mc,), fo).rows():
-                                c11.append(type(w).__name__)
-                        except Exception:       # noqa: BLE001
-                            pass
-            c11 = sorted(set(c11))
+        c11 = sorted(set(c11))
     finally:
         del keep, snaps
         CanvasCache.clear()
